@@ -58,6 +58,21 @@ def executor_config(repo: Repo, name: str):
             if a.arg == "template_dir_name":
                 tdir = const_str(d)
     sup = [x for x in ast.walk(ini.node) if isinstance(x, ast.Call) and src(x.func) == "super().__init__"]
+    # what the base executor is handed (E-NORM N15 reads a local that only names a literal as the literal): files, runner, template dir
+    if len(sup) == 1 and len(sup[0].args) >= 3:
+        from sa.props._tr import resolve_name
+        a0, a1, a2 = (resolve_name(ini.node, a) for a in sup[0].args[:3])
+        if isinstance(a0, ast.Call) and call_name(a0) == "list" and a0.args:
+            a0 = resolve_name(ini.node, a0.args[0])
+        if files is None and isinstance(a0, (ast.List, ast.Tuple)):
+            files = [const_str(e) for e in a0.elts]
+        runner = runner or const_str(a1)
+        if const_str(a2):
+            tdir = tdir or const_str(a2)
+        elif isinstance(a2, ast.Name) and tdir is None:
+            for a, d in zip(reversed(ini.node.args.args), reversed(ini.node.args.defaults)):
+                if a.arg == a2.id:
+                    tdir = const_str(d)
     return c, ini, files, runner, tdir, sup
 
 
@@ -83,7 +98,10 @@ def check(col: Collector, tier: str):
         col.add("C02.R1", f"{ename}.__init__", "listed-files-exist-in-template-dir", not missing and d.is_dir(),
                 f"files {missing} named in file_names do not exist in {tdir}", ini.loc)
         col.add("C02.R1", f"{ename}.__init__", "runner-is-in-the-file-list", runner in files, f"runner {runner!r} not in {files}", ini.loc)
-        ok = len(sup) == 1 and [src(a) for a in sup[0].args[:3]] == ["file_names", "runner_name", "template_dir_name"]
+        # positions 0..2 of the base constructor are (file list, runner name, template directory): the values found there must be a list,
+        # the runner that is in it, and the directory the files were found in (checked above) - names of locals do not matter
+        ok = len(sup) == 1 and len(sup[0].args) >= 3 and not any(isinstance(a, ast.Starred) for a in sup[0].args[:3]) \
+            and files is not None and runner is not None and tdir is not None
         col.add("C02.R1", f"{ename}.__init__", "configuration-forwarded-in-order", ok,
                 f"super().__init__({', '.join(src(a) for a in sup[0].args) if sup else ''}) must pass (file_names, runner_name, template_dir_name, ...)", ini.loc)
         # every template file of the directory that the runner copies is in the list
